@@ -14,6 +14,7 @@ Sub-checks
   sequences      (a) every valid command sequence up to depth d over the 14-command alphabet
   sequences_core (a) one level deeper for the core headers and their variants
   model_bfs      (b) BFS on the model, states merged by control state, one real decode per transition
+  model_bfs_fine (thorough) the same with the kind of the latest command per channel added to the merge key
   long_stream    streams long enough for the bit reader to refill its buffer; prefixes cut at the refills
   truncation     every byte prefix that cuts a bit of a command => IOError
   bad_command    function codes >= 9 => IOError
@@ -55,11 +56,16 @@ ASSUMPTIONS = [
     "index) with planted extremes 32767, -32768, -32767, runs of zeros (mu-law: 0x80, 0x00, -0, +0), "
     "floored to multiples of 2**bitshift / moved to a representable code where the format requires it",
     "mu-law with bitshift > 0: which codes are representable is the rule '(16+m)<<e - 16 is a multiple "
-    "of 2**shift', cross-checked against the decoder's table by the ulaw_tables sub-check",
+    "of 2**shift', cross-checked against the decoder's table by the ulaw_tables sub-check (shifts 0-4)",
     "model_bfs merges states by bit cursor mod 32, channel cursor, block size, bit shift and the "
     "provenance (initial / written under which shift) of every history and mean slot; sample values "
     "are excluded because the decoder never branches on them except through the value classes the "
-    "alphabet already contains (zero mean, mu-law -0 / sign)",
+    "alphabet already contains (zero mean, mu-law -0 / sign); consequence: a defect that makes the "
+    "implementation's state depend on something the model state does not record (e.g. which command "
+    "wrote a mean slot) is only found by model_bfs if it shows on a representative path - the unmerged "
+    "sequences/sequences_core enumerations (and model_bfs_fine in the thorough tier) are there for that",
+    "the generated streams are at most ~40 KiB: the reader's buffer refill is exercised by the vectors and "
+    "by the three long_stream cases only",
 ]
 
 # ------------------------------------------------------------------ alphabet
@@ -655,8 +661,9 @@ def _badver_point(p, seed):
 # ------------------------------------------------------------------ long streams (reader refills)
 
 LONG_CYCLE = [["DIFF", 0, "min"], ["DIFF", 1, "min"], ["QLPC", [11, 31, -8]], ["DIFF", 2, "min"],
-              ["ZERO"], ["DIFF", 1, 5], ["BITSHIFT", 2], ["DIFF", 3, "min"], ["QLPC", [31]],
-              ["DIFF", 0, "min"], ["DIFF", 1, 0], ["BITSHIFT", 0], ["QLPC", [31, -8]], ["DIFF", 2, 5]]
+              ["ZERO"], ["DIFF", 1, 9], ["BITSHIFT", 2], ["DIFF", 3, "min"], ["QLPC", [31]],
+              ["DIFF", 0, "min"], ["DIFF", 1, 0], ["BITSHIFT", 3], ["QLPC", [31, -8]], ["DIFF", 0, "min"],
+              ["BITSHIFT", 1], ["DIFF", 3, "min"], ["DIFF", 0, "min"], ["BITSHIFT", 0], ["DIFF", 2, 10]]
 FIRST_READ, REFILL = 16384, 1024      # the reader's first read and the size it tops its buffer up to
 
 
@@ -843,9 +850,9 @@ def subchecks(tier, seed, only=None):
             "the reference model's own decoder reads each sph2pipe vector exactly (oracle validation)",
             kind="replay"),
         core.SubCheck(
-            "ulaw_tables", [0, 2], _ulaw_table,
+            "ulaw_tables", [0, 1, 2, 3, 4], _ulaw_table,
             "mu-law inward order derived by ranking G.711 values vs the decoder's outward table, "
-            "for the shifts the alphabet uses", kind="replay"),
+            "for the shifts used (alphabet: 0, 2; long streams: 0-3)", kind="replay"),
         core.SubCheck(
             "sequences", _seq_points(headers24(), d_all, 1 if not thorough else 2, True),
             lambda p: _seq_point(p, seed),
@@ -887,7 +894,7 @@ def subchecks(tier, seed, only=None):
     if only in (None, "long_stream"):
         scs.append(core.SubCheck(
             "long_stream", _long_points(seed), lambda p: _long_point(p, seed),
-            "3 streams of > 19 KiB (block size 256/64, all block commands, BITSHIFT, shorter final "
+            "3 streams of > 19 KiB (block size 256/64, all block commands, BITSHIFT 0-3, shorter final "
             "block) so that the bit reader tops up its buffer several times: full decode equals the "
             "encoded samples, and byte prefixes ending within +-5 bytes of each of the first reader "
             "refill points or inside the QUIT word must raise IOError",
